@@ -13,7 +13,7 @@ import json
 from harness.drivers import ERRS
 
 LIST_OBS = ("keys", "values", "entries", "forin")
-NAMES = ["o1", "o2", "o3", "Fp", "Gp", "OP"]
+NAMES = ["o1", "o2", "o3", "Fp", "Gp", "OP", "FnP"]
 FN_NAMES = ["F", "G"]
 RELINK = ("setproto", "lit", "create", "fproto")
 
@@ -28,7 +28,7 @@ var s2 = function(v){ this.s = 's2:' + v; };
 function F(v){ if (v !== undefined) this.b = v; }
 function G(v){ F.call(this, v); }
 Object.setPrototypeOf(G.prototype, F.prototype);
-var Fp = F.prototype; var Gp = G.prototype; var OP = Object.prototype;
+var Fp = F.prototype; var Gp = G.prototype; var OP = Object.prototype; var FnP = Object.getPrototypeOf(F);
 var o1; var o2; var o3;
 function __forin(o){ var r = []; for (var k in o) { r.push(k); } return r; }
 function __cyc(){
